@@ -38,6 +38,7 @@
 #include <sys/wait.h>
 #include <sys/uio.h>
 #include <execinfo.h>
+#include <sys/resource.h>
 #define protected public
 #define private public
 #include <photon/thread/thread.h>
@@ -305,7 +306,9 @@ void on_alarm(int) {
 void child_main(const std::string& line, int outfd) {
     g_outfd = outfd;
     signal(SIGALRM, on_alarm);
-    { const char* t = getenv("C11_TIMEOUT_MS"); int ms = t ? atoi(t) : 60000; alarm(ms > 3000 ? (ms - 2000) / 1000 : 1); }
+    { const char* t = getenv("C11_TIMEOUT_MS"); int ms = t ? atoi(t) : 300000; alarm(ms > 3000 ? (ms - 2000) / 1000 : 1); }
+    // a livelock of the code under test burns CPU: stop it by CPU time (independent of the machine's load)
+    { struct rlimit rl; rl.rlim_cur = 10; rl.rlim_max = 12; setrlimit(RLIMIT_CPU, &rl); }
     if (!parse_case(line)) { const char* m = "BADCASE\n"; (void)!write(outfd, m, strlen(m)); _exit(0); }
     if (!&photon_verif_clock || !&photon_verif_idle) { const char* m = "NOHOOKS\n"; (void)!write(outfd, m, strlen(m)); _exit(0); }
     log_output_level = ALOG_FATAL + 1;
@@ -359,6 +362,7 @@ std::string run_once(const std::string& line, int timeout_ms) {
     int status = 0; waitpid(pid, &status, 0);
     while (!out.empty() && (out.back() == '\n' || out.back() == '\r')) out.pop_back();
     if (hang) return "HANG " + out;
+    if (WIFSIGNALED(status) && (WTERMSIG(status) == SIGXCPU || (WTERMSIG(status) == SIGKILL && !hang))) return "HANG(cpu) " + out;
     if (WIFSIGNALED(status)) return "CRASH(sig" + std::to_string(WTERMSIG(status)) + ") " + out;
     if (out.empty()) return "NOOUTPUT(exit" + std::to_string(WEXITSTATUS(status)) + ")";
     return out;
@@ -369,19 +373,20 @@ std::string run_once(const std::string& line, int timeout_ms) {
 int main(int argc, char** argv) {
     if (argc < 2) { fprintf(stderr, "usage: %s <casefile>\n", argv[0]); return 2; }
     bool twice = !(getenv("C11_ONCE") && getenv("C11_ONCE")[0] == '1');
-    int timeout_ms = getenv("C11_TIMEOUT_MS") ? atoi(getenv("C11_TIMEOUT_MS")) : 60000;
+    int timeout_ms = getenv("C11_TIMEOUT_MS") ? atoi(getenv("C11_TIMEOUT_MS")) : 300000;
     std::ifstream in(argv[1]);
     std::string line;
     while (std::getline(in, line)) {
         if (line.empty() || line[0] == '#') continue;
         if (getenv("C11_NOFORK")) child_main(line, 1);      // debugging aid: run the (single) case in this process
-        // A run is a pure function of the case (virtual time); a child that produces nothing within the
-        // REAL-time limit (60 s) is re-run (up to 3 more times) so that a stall of the machine is not mistaken
-        // for a hang of the code under test (observed at load average ~70: children stuck for > 8 s in
-        // vcpu_init -> pthread_getattr_np -> fopen("/proc/self/maps") or in thread_create's stack mmap, before
-        // the first virtual tick); a genuine hang/livelock hangs every time and is still reported.
+        // A run is a pure function of the case (virtual time).  A livelock of the code under test is stopped by
+        // the child's 10 s CPU-time limit (`HANG(cpu)`, load independent, like harness/E2).  A child that
+        // produces nothing within the generous WALL-clock limit (300 s) is re-run (up to 3 more times): at load
+        // average ~70 children were observed stuck for > 8 s in vcpu_init -> pthread_getattr_np ->
+        // fopen("/proc/self/maps") or in thread_create's stack mmap, before the first virtual tick — a stall of
+        // the machine, not of the code under test.
         auto run = [&]() { std::string r = run_once(line, timeout_ms);
-                           for (int k = 0; k < 3 && r.compare(0, 4, "HANG") == 0; k++) { fprintf(stderr, "[C11 harness] re-running after %s: %s\n", r.c_str(), line.c_str()); r = run_once(line, timeout_ms); }
+                           for (int k = 0; k < 3 && r.compare(0, 5, "HANG ") == 0; k++) { fprintf(stderr, "[C11 harness] re-running after %s: %s\n", r.c_str(), line.c_str()); r = run_once(line, timeout_ms); }
                            return r; };
         std::string a = run();
         if (twice) { std::string b = run(); if (a != b) a = "NONDET first{" + a + "} second{" + b + "}"; }
